@@ -667,7 +667,15 @@ def _handle_call(node: ast.Call, ctx: Context) -> sympy.Expr | None:
         if (expr := _handle_expr(i, ctx)) is None:
             return None
         model_args.append(expr)
-    _LOGGER.debug("Fn args: %s", model_args)
+    keyword_args: dict[str, sympy.Expr] = {}
+    for kw in node.keywords:
+        if kw.arg is None:
+            msg = "Calls with **kwargs are not supported"
+            raise NotImplementedError(msg)
+        if (expr := _handle_expr(kw.value, ctx)) is None:
+            return None
+        keyword_args[kw.arg] = expr
+    _LOGGER.debug("Fn args: %s %s", model_args, keyword_args)
 
     match node.func:
         case ast.Name(id):
@@ -709,7 +717,24 @@ def _handle_call(node: ast.Call, ctx: Context) -> sympy.Expr | None:
         return None
 
     if (fn := KNOWN_FNS.get(py_fn)) is not None:
+        if keyword_args:
+            msg = "Keyword arguments of library functions are not supported"
+            raise NotImplementedError(msg)
         return sympy.Float(fn(*model_args))  # type: ignore
+
+    # Every parameter of the called function has to be bound, in the order of its
+    # signature: keyword arguments are sorted in, calls that rely on default values
+    # are refused
+    try:
+        signature = inspect.signature(py_fn)
+        bound = signature.bind(*model_args, **keyword_args)
+    except (TypeError, ValueError) as e:
+        msg = f"Cannot bind the arguments of the call to {fn_name}"
+        raise NotImplementedError(msg) from e
+    if list(bound.arguments) != list(signature.parameters):
+        msg = f"Call to {fn_name} relies on default values"
+        raise NotImplementedError(msg)
+    model_args = [bound.arguments[i] for i in signature.parameters]
 
     return fn_to_sympy(
         py_fn,
